@@ -214,6 +214,19 @@ def run(ctx):
                                sum(v for k, v in rwstats.items() if k.startswith("family:")), rwstats.get("onto:longer"),
                                rwstats.get("onto:shorter"), rwstats.get("onto:same-length"), rwstats.get("onto:absent"),
                                rwstats.get("family:history")))
+    ctx.coverage["free_form_fields"] = {
+        "strings_by_domain": stats.get("free_form_strings"), "ignore_sequences": stats.get("ignore_sequences"),
+        "near_pairs": stats.get("near_pairs"),
+        "configurations": {k[6:]: v for k, v in dist.items() if k.startswith("write:free-")},
+        "rule": "the quantifier restricts requirement versions and requirement paths only; project name, project version, ignore "
+                "patterns and requirement names are free text that must come back verbatim.  Strings that mean something to "
+                "another field's validator or to a plausible normaliser - the semver grammar enumerated (MAJOR[.MINOR[.PATCH]] x "
+                "prerelease x build metadata; canonical / valid-not-canonical / not-semver decided by x/mod/semver), near-versions, "
+                "clean and unclean path shapes, globs, padding, letter case, equivalent Unicode spellings, text that reads as "
+                "another TOML type, the format's key words, references - are put in all four free positions at once and alone in "
+                "a position; ignore patterns as sequences (all sequences <= 3 over {a, b, empty}, orders a sort would change, "
+                "long lists); pairs a normalisation would identify side by side as two requirement names / two patterns.  The same "
+                "strings feed the random configurations, rewrite histories and sessions, and the projects of the get/tidy runs."}
     ctx.coverage["rewrite_in_place"] = rwstats
     ctx.coverage["sessions"] = {
         "sessions": rwstats.get("sessions"), "by_family": {k[8:]: v for k, v in rwstats.items() if k.startswith("session:")},
